@@ -25,7 +25,7 @@ func genC02(t *rapid.T) c06Case {
 	}
 	if rapid.IntRange(0, 2).Draw(t, "points") == 0 {
 		c.Cfg.Points = rapid.SliceOfNDistinct(rapid.SampledFrom([]string{"conn.NewStream.afterNewClientStream", "conn.Invoke.afterNewClientStream",
-			"manager.manageReader.beforeDispatch", "manager.newStream.beforeSet", "manager.acquireSemaphore.acquired", "manager.manageStream.ctxDone"}), 1, 3, func(s string) string { return s }).Draw(t, "pts")
+			"manager.manageReader.beforeDispatch", "manager.newStream.beforeSet", "manager.acquireSemaphore.acquired", "manager.manageStream.ctxDone", "manager.manageStream.enter"}), 1, 3, func(s string) string { return s }).Draw(t, "pts")
 		c.Cfg.PointLimit = 10
 	}
 	c.Concurrent = rapid.IntRange(0, 1).Draw(t, "concurrent") == 0
